@@ -285,6 +285,13 @@ func oracle(c *Case, o *Obs) (string, string) {
 	if c.InErr != nil && (c.Par == "collect" || c.Par == "transform") {
 		lazy = append(lazy, cand{err: c.InErr, pan: -1, what: "the input stream carries an error item"})
 	}
+	if c.Resume {
+		// the run was resumed until it no longer interrupted: the nodes that asked for a rerun have succeeded since
+		if o.P != nil && o.P.Interrupt {
+			return "the run still ends in an interrupt after 8 resumes from its checkpoint: " + o.P.Msg, "resume-stuck"
+		}
+		rerun = false
+	}
 	if o.Class == "ok" {
 		switch {
 		case len(eager) > 0:
@@ -476,6 +483,9 @@ func tagsOf(c *Case, o *Obs) []string {
 	}
 	if c.Twice {
 		t = append(t, "has:second-call-on-the-same-runnable")
+	}
+	if c.Resume {
+		t = append(t, "has:resumed-from-checkpoint")
 	}
 	if o.P != nil {
 		switch {
